@@ -21,7 +21,8 @@
        the creation of the first dangerous link.  What can follow it is exactly the
        known finding. *)
 From Lhasa Require Import Base Loop Generated Header Fs FsRun Glob Reader CliExtract CliMain InputStream ListOut
-  P_CliSafe P_CliOrder P_FsConfine P_CliPath P_CliConfine P_CliConfineAll P_FsLinks P_CliPathLen P_CliConfineLate.
+  P_CliSafe P_CliOrder P_FsConfine P_CliPath P_CliConfine P_CliConfineAll P_FsLinks P_CliPathLen P_CliConfineLate
+  P_CliMembers P_CliConfineBytes P_CliConfineBytesEx.
 From Lhasa Require Import S_Capstone P_Capstone P_CapCli S_CapAny P_CapAnyRun P_CapConfine P_CapConfineEx.
 Local Open Scope N_scope.
 
@@ -278,6 +279,71 @@ Proof. exact P_CapConfineEx.ex3_computed. Qed.
 Theorem exit_status_not_zero : ltac:(let t := type of P_CapConfineEx.exit_status_not_zero in exact t).
 Proof. exact P_CapConfineEx.exit_status_not_zero. Qed.
 
+(* ---- CONFINEMENT DECIDED ON THE ARCHIVE BYTES (P_CliMembers, P_CliConfineBytes) ----
+   stream_headers mktime strm: the headers plain iteration with the basic reader yields on the
+   stream (lha_basic_reader_next_file until "no header"), a total function of the bytes.
+   Every header the extraction loop obtains -- members, directories presented again, deferred
+   links presented again -- is one of them (C15: what was done with a member does not change
+   what follows), unless the overwrite prompt takes its answer from the archive stream itself
+   (archive "-", policy "prompt": no_shared_prompt excludes it; stdin_prompt_refuted shows it
+   must).  Hence the test of whole_run_confined_by_test can be evaluated on the bytes. *)
+Theorem presents_are_stream_headers : forall mktime junk flt st0 strm hd,
+  cs_reader st0 = lha_reader_new strm -> P_HeaderSafe.wf strm -> P_HeaderSafe.avail strm < 1099511627776 ->
+  no_shared_prompt st0 ->
+  presents mktime junk flt st0 hd -> In hd (stream_headers mktime strm).
+Proof. exact P_CliMembers.presents_are_stream_headers. Qed.
+
+Theorem stream_headers_spec : ltac:(let t := type of P_CliMembers.stream_headers_spec in exact t).
+Proof. exact P_CliMembers.stream_headers_spec. Qed.
+Theorem stream_headers_kind : ltac:(let t := type of P_CliConfineBytes.stream_headers_kind in exact t).
+Proof. exact P_CliConfineBytes.stream_headers_kind. Qed.
+
+Theorem confined_by_bytes : forall mktime junk (R : phys) (o0 : lha_options), good_w o0 ->
+  forall (k : skind) (A : list N) (flt : lha_filter) (st0 : cli_state) (v : res bool) (st : cli_state),
+  nlen A < 1099511627776 ->
+  fs_cwd (cs_fs st0) = R -> no_links_below R (fs_root (cs_fs st0)) ->
+  cs_opts st0 = o0 -> cs_reader st0 = lha_reader_new (lha_input_stream_new (mk_source k A)) ->
+  no_shared_prompt st0 ->
+  no_link_through_safe_b (map (msum o0) (stream_headers mktime (lha_input_stream_new (mk_source k A)))) = true ->
+  extract_archive mktime junk flt st0 = Ok (v, st) ->
+  exists new, fs_trace (cs_fs st) = new ++ fs_trace (cs_fs st0) /\ forall o, In o new -> below_op R o.
+Proof. exact P_CliConfineBytes.confined_by_bytes. Qed.
+
+Theorem confined_by_stream : ltac:(let t := type of P_CliConfineBytes.confined_by_stream in exact t).
+Proof. exact P_CliConfineBytes.confined_by_stream. Qed.
+
+(* the whole tool: any command line; the archive argument a file of the filesystem or "-" *)
+Theorem lha_main_confined_by_bytes : ltac:(let t := type of P_CliConfineBytes.lha_main_confined_by_bytes in exact t).
+Proof. exact P_CliConfineBytes.lha_main_confined_by_bytes. Qed.
+Theorem cli_run_confined_by_bytes : ltac:(let t := type of P_CliConfineBytes.cli_run_confined_by_bytes in exact t).
+Proof. exact P_CliConfineBytes.cli_run_confined_by_bytes. Qed.
+
+(* `lha CMD /arc/a.lzh [file...]` in the clean test tree, ANY archive bytes A *)
+Theorem cli_arc_confined_by_bytes : forall mktime localtime strerror uid0 now mt argv A stdin r mode o filters,
+  parse_main (tl argv) = Some (mode, o, bytes_arc_path, filters) -> good_w o ->
+  nlen A < 1099511627776 ->
+  confinement_test mktime o (stream_of (mk_source KFile A)) = true ->
+  cli_run mktime localtime strerror uid0 now mt argv A stdin [] = Ok r ->
+  forall op, In op (fs_trace (cr_fs r)) -> below_op [bytes_root] op.
+Proof. exact P_CliConfineBytes.cli_arc_confined_by_bytes. Qed.
+
+(* the test evaluated: false on the F5 witness, true on d/, d/f, d/s -> f, d/x -> ../y, and the
+   conclusion obtained from the theorem; the hypothesis on standard input is necessary *)
+Theorem f5_test_false : ltac:(let t := type of P_CliConfineBytesEx.f5_test_false in exact t).
+Proof. exact P_CliConfineBytesEx.f5_test_false. Qed.
+Theorem example_test_true : ltac:(let t := type of P_CliConfineBytesEx.example_test_true in exact t).
+Proof. exact P_CliConfineBytesEx.example_test_true. Qed.
+Theorem example_confined : ltac:(let t := type of P_CliConfineBytesEx.example_confined in exact t).
+Proof. exact P_CliConfineBytesEx.example_confined. Qed.
+Theorem example_cli_confined_utc : ltac:(let t := type of P_CliConfineBytesEx.example_cli_confined_utc in exact t).
+Proof. exact P_CliConfineBytesEx.example_cli_confined_utc. Qed.
+Theorem example_cli_returns : ltac:(let t := type of P_CliConfineBytesEx.example_cli_returns in exact t).
+Proof. exact P_CliConfineBytesEx.example_cli_returns. Qed.
+Theorem stdin_prompt_refuted : ltac:(let t := type of P_CliConfineBytesEx.stdin_prompt_refuted in exact t).
+Proof. exact P_CliConfineBytesEx.stdin_prompt_refuted. Qed.
+Theorem dash_force_confined : ltac:(let t := type of P_CliConfineBytesEx.dash_force_confined in exact t).
+Proof. exact P_CliConfineBytesEx.dash_force_confined. Qed.
+
 Print Assumptions insert_deferred_keeps_longest_first.
 Print Assumptions insert_deferred_adds_one.
 Print Assumptions confinement_refuted.
@@ -315,3 +381,18 @@ Print Assumptions cli_run_any.
 Print Assumptions e2e_confined_example.
 Print Assumptions e2e_confined_example_run.
 Print Assumptions exit_status_not_zero.
+Print Assumptions presents_are_stream_headers.
+Print Assumptions stream_headers_spec.
+Print Assumptions stream_headers_kind.
+Print Assumptions confined_by_bytes.
+Print Assumptions confined_by_stream.
+Print Assumptions lha_main_confined_by_bytes.
+Print Assumptions cli_run_confined_by_bytes.
+Print Assumptions cli_arc_confined_by_bytes.
+Print Assumptions f5_test_false.
+Print Assumptions example_test_true.
+Print Assumptions example_confined.
+Print Assumptions example_cli_confined_utc.
+Print Assumptions example_cli_returns.
+Print Assumptions stdin_prompt_refuted.
+Print Assumptions dash_force_confined.
